@@ -6,6 +6,8 @@ cd "$(dirname "$0")/.." || exit 2
 REPO=${1:-${VP_RUN_REPO:-/repo}}
 [ $# -gt 0 ] && shift
 export FPDEC_REPO=$REPO
+# evidence of runs on a modified tree goes next to their logs, never into the committed evidence/
+export VERIF_EVIDENCE_DIR=$(pwd)/seedresults/evidence
 mkdir -p seedresults
 IDS=${*:-$(ls seeded)}
 [ -x lean/.lake/build/bin/fpmodel ] || ./setup.sh > seedresults/setup.log 2>&1
